@@ -236,6 +236,31 @@ def build(run):
                 if e.geometric_quantity(q) < 0:
                     return violated(f"negative degree for {q}", reproduced=True)
                 n += 1
+            # every geometric quantity class of the language: the position quantities (affine functions of the point inside the cell, facet or ridge:
+            # true degree 1) must not be estimated below 1, also as a factor of a product / power; nothing may be negative
+            import inspect
+            from ufl.corealg.map_dag import map_expr_dag
+            POSITION = ("SpatialCoordinate", "CellCoordinate", "FacetCoordinate", "RidgeCoordinate")
+            for cname_, cls_ in sorted(vars(C).items()):
+                if not (inspect.isclass(cls_) and issubclass(cls_, C.GeometricQuantity)) or cls_._ufl_is_abstract_:
+                    continue
+                try:
+                    q = cls_(dom)
+                    q.ufl_shape
+                except Exception:  # noqa: BLE001
+                    continue        # not defined on this cell
+                d_ = map_expr_dag(est(), q)
+                n += 1
+                if d_ < 0 or (cname_ in POSITION and d_ < 1):
+                    return violated(f"{cname_} on {dom.ufl_cell()} (gdim {dom.geometric_dimension}) is estimated as degree {d_}" + (", it is affine in the position (degree 1)" if cname_ in POSITION else ""),
+                                    replay={"quantity": cname_, "cell": str(dom.ufl_cell())}, reproduced=True)
+                if cname_ in POSITION and q.ufl_shape and all(q.ufl_shape):
+                    c_ = q[(0,) * len(q.ufl_shape)]
+                    d2 = estimate_total_polynomial_degree(c_ ** 2 * x[0])
+                    n += 1
+                    if d2 < 3:
+                        return violated(f"{cname_}[0]**2 * x[0] on {dom.ufl_cell()} is estimated as degree {d2}, its true degree is 3",
+                                        replay={"quantity": cname_, "cell": str(dom.ufl_cell())}, reproduced=True)
         for v in (C.IntValue(3), C.FloatValue(0.5), C.Zero((2,)), C.Identity(2), ufl.Constant(tri)):
             r = e(v) if not isinstance(v, ufl.Constant) else e.constant(v)
             if r != 0:
